@@ -8,11 +8,14 @@ LEVEL = "proof"
 TARGETS = ['DeepCopy', 'MutateAttr', 'WithAttr', 'ResetAttr']
 FAMILY_FILTER = ['c02.', 'c01.identity', 'c05.others'] + STRUCTURAL
 ASSUMPTIONS = A_COMMON + [
+    "protect_via_deepcopy is used by its callers through the contract ProtectCopy; that contract (copier clause) is discharged against "
+    "the function body in the sub-check ProtectBody, where copy.deepcopy itself is the assumed A-COPY and the module guard is used through its C20 contracts",
     "clauses of other properties on the same functions are discharged by those properties' own checks",
     "transitive chains of invalidation, collection element helpers, update/transform (mutate_value) and the constructor are covered here "
     "only through the bounded harness; their contracts live in the checks of C05/C06/C09",
 ]
 EXPLANATION = "__deepcopy__ is proved slot by slot: do_not_copy attributes by identity, every other attribute a mutate-safe copy (fresh or atomic), bound methods of the instance dropped; the helpers' results are that copy with one slot replaced"
+SUBCHECKS = [("props._copy_protect", ["ProtectBody"])]
 FINDINGS = []
 
 
